@@ -5,6 +5,7 @@ mod broadcast;
 mod codec;
 mod conn;
 mod endpoint;
+mod net;
 mod port;
 mod robs_deque;
 mod robs_list;
@@ -127,6 +128,7 @@ fn main() {
         "codec" => codec::run(seed, count, &extra, &mut out),
         "port" => port::run(seed, count, &extra, &mut out),
         "endpoint" => endpoint::run(seed, count, &extra, &mut out),
+        "net" => net::run(seed, count, &extra, &mut out),
         "robs_deque" => robs_deque::run(seed, count, &extra, &mut out),
         "robs_list" => robs_list::run(seed, count, &extra, &mut out),
         "robs_vec" => robs_vec::run(seed, count, &extra, &mut out),
